@@ -407,6 +407,10 @@ class Core:
             parts = [self.coerce(Val(a.elems[i], sa.accessor(0, i)(v.z)), ty.elems[i], node).z
                      for i in range(len(a.elems))]
             return Val(ty, s.mk(*parts))
+        if kt == "Dict" and (ka == "EmptyDict" or (ka == "None" and v.py == "emptydict")):
+            sd = self.S.sort(ty)
+            dflt = self.ghost.setdefault("emptydictvals_%s" % sd, z3.Const("emptydictvals_%s" % sd, z3.ArraySort(self.S.sort(ty.k), self.S.sort(ty.v))))
+            return Val(ty, sd.mk(z3.K(self.S.sort(ty.k), False), dflt))
         if kt == "Set" and ka == "Set" and self.S.sort(a) == self.S.sort(ty):
             return Val(ty, v.z, py=v.py)
         if kt == "Json":
